@@ -158,11 +158,24 @@ def inventory(facts):
         # values that are only skipped (never referenced) are padding
         used = {}
         walk(fn["body"], lambda x: used.__setitem__(x["d"], used.get(x["d"], 0) + 1) if x.get("k") == "Ref" and x.get("d") in vals else None)
+        # a byte whose every use is a bit test against a constant mask is a set of independent flags: every combination is a
+        # flags byte some writer produces (hoisting `data[FLAGS]` into a local must not create an obligation the inline form
+        # never had)
+        from astu import walkp
+        flag_only = {}
+
+        def fu(n, ps):
+            if n.get("k") == "Ref" and n.get("d") in vals:
+                par = [p for p in ps if isinstance(p, dict) and p.get("k") not in ("Cast", "Paren")]
+                p = par[-1] if par else {}
+                ok = p.get("k") == "Bin" and p.get("op") == "&" and any(isinstance(strip_all(p[a]), dict) and strip_all(p[a]).get("v") is not None and strip_all(p[a]).get("k") not in ("Call", "OpCall") for a in ("l", "r"))
+                flag_only[n["d"]] = flag_only.get(n["d"], True) and ok
+        walkp(fn["body"], fu)
         key0 = "%s(%s)" % (short(fn["patq"]), kind)
         for j, d in enumerate(order):
             v = vals[d]
             ident = env.get(d, v["n"])
-            rows["%s:%s" % (key0, ident)] = {"name": v["n"], "type": (v.get("t") or "").replace("const ", ""), "validated": d in validated, "uses": used.get(d, 0), "loc": v.get("loc"), "fn": fn["qname"]}
+            rows["%s:%s" % (key0, ident)] = {"name": v["n"], "type": (v.get("t") or "").replace("const ", ""), "validated": d in validated, "uses": used.get(d, 0), "loc": v.get("loc"), "fn": fn["qname"], "flag_only": bool(flag_only.get(d)) and used.get(d, 0) > 0}
     return rows
 
 
@@ -174,6 +187,8 @@ def obligations(facts):
         k = "field:" + key
         if r["validated"]:
             out.append(ob("reader.field-validated", k, r["loc"], "discharged", "`%s` is validated before the object is built" % r["name"], r["fn"]))
+        elif r.get("flag_only") and key not in free:
+            out.append(ob("reader.field-validated", k, r["loc"], "info", "`%s`: used only in bit tests against constant masks - a byte of independent flags" % r["name"], r["fn"]))
         elif key in free:
             out.append(ob("reader.field-validated", k, r["loc"], "info", "`%s`: every value is meaningful - %s" % (r["name"], free[key]), r["fn"]))
         else:
